@@ -85,7 +85,30 @@ impl BackendSel {
 #[derive(Clone, Debug, Serialize, Deserialize, PartialEq)]
 pub enum Src {
     Literal(String),
+    /// a path; the sequence `{xHH}` stands for the raw byte HH, so that plans (JSON, UTF-8) can name
+    /// files whose names are NOT valid UTF-8 — see [`real_path`]
     Path(String),
+}
+
+/// The path a plan's string names: `{xHH}` becomes the raw byte HH (file names are byte strings;
+/// a Latin-1 name on a UTF-8 system is an ordinary thing to meet).
+pub fn real_path(p: &str) -> std::path::PathBuf {
+    use std::os::unix::ffi::OsStringExt;
+    let b = p.as_bytes();
+    let mut out = Vec::with_capacity(b.len());
+    let mut i = 0;
+    while i < b.len() {
+        if b[i] == b'{' && i + 5 <= b.len() && b[i + 1] == b'x' && b[i + 4] == b'}' {
+            if let Ok(v) = u8::from_str_radix(&p[i + 2..i + 4], 16) {
+                out.push(v);
+                i += 5;
+                continue;
+            }
+        }
+        out.push(b[i]);
+        i += 1;
+    }
+    std::path::PathBuf::from(std::ffi::OsString::from_vec(out))
 }
 
 #[derive(Clone, Debug, Serialize, Deserialize, PartialEq)]
@@ -112,6 +135,10 @@ pub struct BuilderPath {
     /// `set_output_mode(OutputMode::SingleFile(..))` (documented as equivalent)
     #[serde(default)]
     pub legacy_path: bool,
+    /// set the output mode in the MIDDLE: after the first source; the remaining sources are then
+    /// added to a builder that is already complete (`Compiler<_, CompilerReady>::add_*`)
+    #[serde(default)]
+    pub output_mid: bool,
 }
 
 #[derive(Clone, Debug, Serialize, Deserialize, PartialEq, Default)]
@@ -265,13 +292,13 @@ fn add_sources<B: Backend>(
     let all_paths = srcs.iter().all(|s| matches!(s, Src::Path(_)));
     if bp.batch_paths && all_paths {
         return Some(c.add_asn_sources_by_path(srcs.iter().map(|s| match s {
-            Src::Path(p) => p.clone(),
+            Src::Path(p) => real_path(p),
             _ => unreachable!(),
         })));
     }
     let mut cur = match &srcs[0] {
         Src::Literal(l) => c.add_asn_literal(l.clone()),
-        Src::Path(p) => c.add_asn_by_path(p.clone()),
+        Src::Path(p) => c.add_asn_by_path(real_path(p)),
     };
     let mut i = 1;
     while i < srcs.len() {
@@ -285,7 +312,7 @@ fn add_sources<B: Backend>(
                 let mut batch = vec![];
                 while j < srcs.len() {
                     if let Src::Path(p) = &srcs[j] {
-                        batch.push(p.clone());
+                        batch.push(real_path(p));
                         j += 1;
                     } else {
                         break;
@@ -295,7 +322,7 @@ fn add_sources<B: Backend>(
                 i = j;
             }
             Src::Path(p) => {
-                cur = cur.add_asn_by_path(p.clone());
+                cur = cur.add_asn_by_path(real_path(p));
                 i += 1;
             }
         }
@@ -314,21 +341,42 @@ fn add_sources_ready<B: Backend>(
     let all_paths = srcs.iter().all(|s| matches!(s, Src::Path(_)));
     if bp.batch_paths && all_paths {
         return Some(c.add_asn_sources_by_path(srcs.iter().map(|s| match s {
-            Src::Path(p) => p.clone(),
+            Src::Path(p) => real_path(p),
             _ => unreachable!(),
         })));
     }
-    let mut cur = match &srcs[0] {
+    let cur = match &srcs[0] {
         Src::Literal(l) => c.add_asn_literal(l.clone()),
-        Src::Path(p) => c.add_asn_by_path(p.clone()),
+        Src::Path(p) => c.add_asn_by_path(real_path(p)),
     };
-    for s in &srcs[1..] {
-        cur = match s {
-            Src::Literal(l) => cur.add_asn_literal(l.clone()),
-            Src::Path(p) => cur.add_asn_by_path(p.clone()),
-        };
+    Some(add_more_ready(cur, &srcs[1..], bp))
+}
+
+/// add sources to a builder that is already complete; consecutive paths in one
+/// `add_asn_sources_by_path` call when `batch_paths`
+fn add_more_ready<B: Backend>(mut cur: Compiler<B, CompilerReady>, srcs: &[Src], bp: &BuilderPath) -> Compiler<B, CompilerReady> {
+    let mut i = 0;
+    while i < srcs.len() {
+        match &srcs[i] {
+            Src::Literal(l) => {
+                cur = cur.add_asn_literal(l.clone());
+                i += 1;
+            }
+            Src::Path(_) if bp.batch_paths => {
+                let mut batch = vec![];
+                while let Some(Src::Path(p)) = srcs.get(i) {
+                    batch.push(real_path(p));
+                    i += 1;
+                }
+                cur = cur.add_asn_sources_by_path(batch.into_iter());
+            }
+            Src::Path(p) => {
+                cur = cur.add_asn_by_path(real_path(p));
+                i += 1;
+            }
+        }
     }
-    Some(cur)
+    cur
 }
 
 fn out_mode(o: &OutSel) -> OutputMode {
@@ -344,7 +392,10 @@ fn to_string_with<B: Backend>(
     srcs: &[Src],
     bp: &BuilderPath,
 ) -> Result<CompileResult, CompilerError> {
-    if bp.output_first {
+    if bp.output_mid && srcs.len() >= 2 {
+        let first = add_sources(c, &srcs[..1], bp).expect("no sources").set_output_mode(OutputMode::NoOutput);
+        add_more_ready(first, &srcs[1..], bp).compile_to_string()
+    } else if bp.output_first {
         add_sources_ready(c.set_output_mode(OutputMode::NoOutput), srcs, bp)
             .expect("no sources")
             .compile_to_string()
@@ -362,6 +413,14 @@ fn ready_with<B: Backend>(
 ) -> Compiler<B, CompilerReady> {
     #[allow(deprecated)]
     let ready = match (bp.legacy_path, out) {
+        _ if bp.output_mid && srcs.len() >= 2 => {
+            let first = add_sources(c, &srcs[..1], bp).expect("no sources");
+            let first = match (bp.legacy_path, out) {
+                (true, OutSel::File(path)) => first.set_output_path(path.clone()),
+                _ => first.set_output_mode(out_mode(out)),
+            };
+            add_more_ready(first, &srcs[1..], bp)
+        }
         (true, OutSel::File(path)) if bp.output_first => {
             add_sources_ready(c.set_output_path(path.clone()), srcs, bp).expect("no sources")
         }
